@@ -900,6 +900,7 @@ def run_world(case, per_op=None):
             lines.append(line)
             if line is not M.SKIP:
                 stats["modelled-ops"] = stats.get("modelled-ops", 0) + 1
+                stats["entry." + line[1]] = stats.get("entry." + line[1], 0) + 1
             name = op_name(op)
             stats["op." + name] = stats.get("op." + name, 0) + 1
             stats["status." + status.split(":")[0]] = stats.get("status." + status.split(":")[0], 0) + 1
